@@ -50,11 +50,16 @@ def hist_to_scenario(hist, sid, pool, nf, diff, reuse_sites=False):
     lifetime, C07); otherwise every installation gets a site of its own."""
     lives, cur, site = [], None, 0
     ninst = 0
+    # every fourth scenario on the Rust pools: the typed pointer to a target is not made where it is used -- one is made (and
+    # kept) at the start of a lifetime and right after every installation, the next installation of that function takes it
+    stash = pool in ("rust", "rustpg") and sid % 4 == 1
     for h in hist:
         a = h["act"]
         if a == "New":
             cur = {"kind": "inj", "steps": []}
             lives.append(cur)
+            if stash:
+                cur["steps"].append({"op": "mkptr"})
         elif a == "Probe":
             if cur is not None:
                 cur["steps"].append({"op": "probe"})
@@ -76,6 +81,8 @@ def hist_to_scenario(hist, sid, pool, nf, diff, reuse_sites=False):
                 # even scenarios: the flavour rotates with every installation
                 st["flavour"] = fl[(sid + (int(h["fake"][1:]) if h["fake"][1:].isdigit() else 0)) % len(fl)] if sid % 2 else fl[(sid + ninst) % len(fl)]
             cur["steps"].append(st)
+            if stash:
+                cur["steps"].append({"op": "mkptr"})
         elif a == "Panic":
             cur["steps"].append({"op": "panic"})
         elif a == "Call":
